@@ -253,6 +253,25 @@ pub fn gen(ctx: &Ctx, rng: &mut Rng, out: &mut Vec<String>) {
         gts: (0..4).map(|c| ["0/0", "0/1", "1|1", "./.", "1/0"][(r + c) % 5].to_string()).collect() }); }
     let vcf_a = vcf::vcf_text(&big_cs);
     let bcf_a = create::container_bytes(&big_cs, "rawbcf", 0).unwrap_or_default();
+    // BCF whose records carry a different number of samples than the header names (n_sample and the GT vector wider or narrower):
+    // the header of a 5-column BCF rewritten to name 4 (and 3) samples, and a 4-column one to name 5; plain and BGZF
+    {
+        let mut cs5 = big_cs.clone(); cs5.extras = false; cs5.cols.push("s4".into()); for r in cs5.recs.iter_mut() { r.gts.push("0/1".into()); }
+        let mut cs4 = big_cs.clone(); cs4.extras = false;
+        let rewrite = |bcf: &[u8], from: &str, to: &str| -> Option<Vec<u8>> {
+            let hl = u32::from_le_bytes(bcf.get(5..9)?.try_into().ok()?) as usize;
+            let text = String::from_utf8(bcf.get(9..9 + hl)?.to_vec()).ok()?;
+            if !text.contains(from) { return None; }
+            let t2 = text.replacen(from, to, 1);
+            let mut o = bcf[..5].to_vec(); o.extend((t2.len() as u32).to_le_bytes()); o.extend(t2.as_bytes()); o.extend_from_slice(&bcf[9 + hl..]); Some(o)
+        };
+        let b5 = vcf::raw_bcf_simple(&cs5).unwrap_or_default(); let b4 = vcf::raw_bcf_simple(&cs4).unwrap_or_default();
+        let mut variants: Vec<Vec<u8>> = Vec::new();
+        for (b, from, to) in [(&b5, "\ts3\ts4\n", "\ts3\n"), (&b5, "\ts2\ts3\ts4\n", "\ts2\n"), (&b4, "\ts3\n", "\ts3\ts4\n"), (&b4, "\ts0\ts1\ts2\ts3\n", "\ts0\n")] {
+            if let Some(v) = rewrite(b, from, to) { variants.push(vcf::bgzf(&v, &[], false)); variants.push(v); }
+        }
+        for v in &variants { for args in ["-", "-s s0=A,s3=B", "-s s0", "-p 1", "--strict"] { out.push(format!("pn.any\tcreate\t{args}\t{}", hex(v))); } }
+    }
     let nmut = if t { 50000 } else { 2400 };
     let stat_args = ["-s sum", "-s s", "-s pi,theta", "-s d-tajima", "-s d-fu-li", "-s f2,fst,pi-xy", "-s king,r0,r1", "-s f3", "-s f4"];
     for i in 0..nmut {
